@@ -109,6 +109,11 @@ inline void register_part2() {
   // is confined to <= 25 circumferences (1e9 m, ~0.15 s): values between that and 1e15 m are mapped to 1e9 m
   reg("Intersect::All(maxdist)", {DIST}, "i", true, [](A a, O o) { double m = std::fabs(a[0]); if (m > 1e9 && m < 1e15) m = 1e9;
     std::vector<int> c; std::vector<Intersect::Point> v = W().xs[g_e].All(10, 20, 30, 11, 21, 100, m, c); o.i[0] = (int)v.size(); });
+  // NaN policy for the same argument (added after seeded change C13-r5s1): a NaN maxdist is not an "absurd" one -- the call must return
+  // (an empty list on the unchanged tree) without any exception; finite values are confined to <= 1e9 m, infinities mapped to 1e7 m
+  reg("Intersect::All(maxdist-nan-policy)", {DIST}, "i", false, [](A a, O o) { double m = a[0]; if (!std::isnan(m) && !(std::fabs(m) <= 1e9)) m = 1e7;
+    std::vector<int> c; std::vector<Intersect::Point> v = W().xs[g_e].All(10, 20, 30, 11, 21, 100, m, c), v2 = W().xs[g_e].All(10, 20, 30, 11, 21, 100, m);
+    o.i[0] = (int)(v.size() + v2.size()); });
   // ---------------- PolygonArea (history of 3 fixed points + the variable ones)
   reg("PolygonArea::AddPoint+Compute", {LAT, LON}, "rri", false, [](A a, O o) { PolygonArea p(W().g[g_e]); p.AddPoint(10, 10); p.AddPoint(a[0], a[1]); p.AddPoint(-20, 80); o.i[0] = (int)p.Compute(false, true, o.r[0], o.r[1]); });
   reg("PolygonArea::AddEdge+Compute", {AZI, DIST}, "rri", false, [](A a, O o) { PolygonArea p(W().g[g_e]); p.AddPoint(10, 10); p.AddEdge(a[0], a[1]); p.AddPoint(-20, 80); o.i[0] = (int)p.Compute(true, false, o.r[0], o.r[1]); });
